@@ -36,6 +36,7 @@ type World struct {
 	mu             sync.Mutex
 	importAlias    map[string]map[string]string // package path -> local import name -> imported path
 	freshCallee    map[*ssa.Function]bool
+	sentinels      map[string]int // package-level error variables initialised with errors.New/fmt.Errorf-free constructors
 }
 
 func LoadWorld(repo string, patterns []string, specDir string) (*World, error) {
@@ -405,8 +406,18 @@ func (w *World) ambientGhost(comp string) bool {
 // never stored to outside the construction of a fresh object (a local Alloc of the storing
 // function). Such fields keep their value across every call (havoc skips them).
 func (w *World) immutableFieldComp(comp string) bool {
-	if !strings.HasPrefix(comp, "F:"+modulePath) && !strings.HasPrefix(comp, "C:") {
+	if !strings.HasPrefix(comp, "F:"+modulePath) && !strings.HasPrefix(comp, "C:") && !strings.HasPrefix(comp, "E:"+modulePath) {
 		return false
+	}
+	if strings.HasPrefix(comp, "F:") {
+		// exported fields can be written by reflection-based decoders (mapstructure, json, yaml),
+		// which the scan below cannot see: only unexported fields qualify
+		if i := strings.LastIndex(comp, "."); i >= 0 && i+1 < len(comp) {
+			c := comp[i+1]
+			if c >= 'A' && c <= 'Z' {
+				return false
+			}
+		}
 	}
 	w.mu.Lock()
 	defer w.mu.Unlock()
@@ -463,8 +474,20 @@ func (w *World) immutableFieldComp(comp string) bool {
 						continue
 					}
 					switch a := st.Addr.(type) {
-					case *ssa.IndexAddr, *ssa.Global:
-						_ = a
+					case *ssa.Global:
+					case *ssa.IndexAddr:
+						// element store into a slice/array that is not under construction
+						if _, isMk := a.X.(*ssa.MakeSlice); isMk {
+							break
+						}
+						switch bt := a.X.Type().Underlying().(type) {
+						case *types.Slice:
+							w.mutFields["E:"+typeKey(bt.Elem())] = true
+						case *types.Pointer:
+							if at, ok := bt.Elem().Underlying().(*types.Array); ok {
+								w.mutFields["E:"+typeKey(at.Elem())] = true
+							}
+						}
 					case *ssa.FieldAddr:
 						// every struct on the address chain has this field path written
 						cur := a
@@ -551,4 +574,144 @@ func (w *World) onlyCalledOnFresh(fn *ssa.Function) bool {
 	}
 	w.freshCallee[fn] = okAll && n > 0
 	return okAll && n > 0
+}
+
+// implementations returns synthesized contracts "implementation body against interface contract"
+// for every in-repo (non-mock) type implementing the interface method of contract c.
+func (w *World) implementations(c *Contract) []*Contract {
+	sig, it := w.sigOfContract(c)
+	if sig == nil || it == nil {
+		return nil
+	}
+	iface, ok := it.Underlying().(*types.Interface)
+	if !ok {
+		return nil
+	}
+	_, mname, _ := strings.Cut(strings.TrimPrefix(c.Key, "("), ").")
+	var out []*Contract
+	seen := map[string]bool{}
+	for _, path := range sortedKeys(w.pkgByPath) {
+		if !strings.HasPrefix(path, modulePath) || strings.Contains(path, "/mocks") || strings.Contains(path, "testsupport") {
+			continue
+		}
+		p := w.pkgByPath[path]
+		for _, name := range p.Scope().Names() {
+			tn, ok := p.Scope().Lookup(name).(*types.TypeName)
+			if !ok || tn.IsAlias() {
+				continue
+			}
+			named, ok := tn.Type().(*types.Named)
+			if !ok || named.TypeParams().Len() > 0 {
+				continue
+			}
+			if _, isIface := named.Underlying().(*types.Interface); isIface {
+				continue
+			}
+			for _, recv := range []types.Type{named, types.NewPointer(named)} {
+				if !types.Implements(recv, iface) {
+					continue
+				}
+				sel := w.prog.MethodSets.MethodSet(recv).Lookup(p, mname)
+				if sel == nil {
+					sel = w.prog.MethodSets.MethodSet(recv).Lookup(nil, mname)
+				}
+				if sel == nil {
+					continue
+				}
+				fn := w.prog.MethodValue(sel)
+				if fn == nil {
+					continue
+				}
+				// follow wrappers (promoted methods / pointer wrappers) to the declared method
+				key := fnKey(fn)
+				if fn.Synthetic != "" && fn.Blocks == nil {
+					if decl, ok := sel.Obj().(*types.Func); ok {
+						if df := w.prog.FuncValue(decl); df != nil {
+							fn = df
+							key = fnKey(df)
+						}
+					}
+				}
+				if fn.Blocks == nil || seen[key] || !strings.HasPrefix(fnPkgPath(fn), modulePath) {
+					continue
+				}
+				seen[key] = true
+				if _, ok := w.funcs[key]; !ok {
+					w.funcs[key] = fn
+				}
+				nc := *c
+				nc.Kind = "func"
+				nc.Key = key
+				nc.SubtypeOf = c.Key
+				nc.LoopInv = map[int][]Clause{}
+				nc.Logged = ""
+				if own := w.ct.Funcs[key]; own != nil {
+					nc.LoopInv = own.LoopInv
+					nc.Requires = append(append([]Clause{}, c.Requires...), own.Requires...)
+				}
+				// parameter names of the interface method, by position
+				nc.ParamAlias = map[string]int{}
+				for i := 0; i < sig.Params().Len(); i++ {
+					if n := sig.Params().At(i).Name(); n != "" && n != "_" {
+						nc.ParamAlias[n] = i
+					}
+				}
+				out = append(out, &nc)
+				break
+			}
+		}
+	}
+	return out
+}
+
+// sentinelOrd: a package-level variable of type error that is initialised exactly once, in its
+// package initialiser, with errors.New(...) and never stored to again. Such variables are
+// distinct non-nil values.
+func (w *World) sentinelOrd(name string) (int, bool) {
+	w.mu.Lock()
+	if w.sentinels == nil {
+		w.sentinels = map[string]int{}
+		var names []string
+		for _, p := range w.prog.AllPackages() {
+			init := p.Func("init")
+			if init == nil {
+				continue
+			}
+			for _, b := range init.Blocks {
+				for _, in := range b.Instrs {
+					st, ok := in.(*ssa.Store)
+					if !ok {
+						continue
+					}
+					g, ok := st.Addr.(*ssa.Global)
+					if !ok {
+						continue
+					}
+					mi, ok := st.Val.(*ssa.MakeInterface)
+					var call *ssa.Call
+					if ok {
+						call, _ = mi.X.(*ssa.Call)
+					} else {
+						call, _ = st.Val.(*ssa.Call)
+					}
+					if call == nil {
+						continue
+					}
+					if fn, ok := call.Call.Value.(*ssa.Function); ok && fn.String() == "errors.New" {
+						names = append(names, g.Pkg.Pkg.Path()+"."+g.Name())
+					}
+				}
+			}
+		}
+		sort.Strings(names)
+		for i, n := range names {
+			w.sentinels[n] = i + 1
+		}
+	}
+	o, ok := w.sentinels[name]
+	w.mu.Unlock()
+	if !ok || !w.immutableGlobal(name) {
+		return 0, false
+	}
+	return o, true
 }
